@@ -8,10 +8,11 @@ use crate::source::{Content, Doc};
 use thiserror::Error;
 
 use std::borrow::Cow;
-#[cfg(feature = "verif-hooks")]
-use crate::verif_hooks::VecSet as HashSet;
 #[cfg(not(feature = "verif-hooks"))]
 use std::collections::HashSet;
+
+#[cfg(feature = "verif-hooks")]
+use crate::verif_hooks::VecSet as HashSet;
 
 pub enum TemplateFix {
   // no meta_var, pure text
@@ -368,5 +369,30 @@ if (true) {
   #[test]
   fn test_nested_matching_replace() {
     // TODO impossible, we don't support nested replacement
+  }
+}
+
+/// Verification hooks (cargo feature `verif-hooks`).
+#[cfg(feature = "verif-hooks")]
+#[doc(hidden)]
+pub mod verif_hooks {
+  use super::*;
+  /// the parsed shape of a template: literal fragments and, between consecutive fragments,
+  /// (kind: 0 single / 1 multiple / 2 transformed, variable name, recorded indent)
+  pub fn template_parts(fix: &TemplateFix) -> (Vec<String>, Vec<(u8, String, usize)>) {
+    match fix {
+      TemplateFix::Textual(s) => (vec![s.clone()], vec![]),
+      TemplateFix::WithMetaVar(t) => (
+        t.fragments.clone(),
+        t.vars
+          .iter()
+          .map(|(v, indent)| match v {
+            MetaVarExtract::Single(s) => (0, s.clone(), *indent),
+            MetaVarExtract::Multiple(s) => (1, s.clone(), *indent),
+            MetaVarExtract::Transformed(s) => (2, s.clone(), *indent),
+          })
+          .collect(),
+      ),
+    }
   }
 }
